@@ -272,7 +272,7 @@ static void adpcm_case (int codec, int ch, int blockalign, int hdr, int stream)
 	int spb, bsz, in_domain = 1 ; long flen, frames, valid_frames = 0 ; uint32_t lcg = 12345u + (uint32_t) hdr * 7 + (uint32_t) stream ;
 	SF_INFO ri ; SNDFILE *sf ; long bad = 0 ; static const char *cn [3] = { "wav-ima", "wav-ms", "aifc-ima4" } ;
 	static const int preds [5] = { -32768, -1, 0, 1, 32767 }, idxs [6] = { 0, 1, 87, 88, 89, 127 } ;
-	static const int deltas [4] = { 16, 100, 0x7FFF, -32768 }, samps [4][2] = { { 0, 0 }, { 32767, -32768 }, { -32768, 32767 }, { 32767, 32767 } } ;
+	static const int deltas [8] = { 16, 100, 0x7FFF, -32768, 0, 1, 15, 17 }, samps [4][2]	/* idelta: also the values below the adaptation floor of 16 */ = { { 0, 0 }, { 32767, -32768 }, { -32768, 32767 }, { 32767, 32767 } } ;
 
 	if (codec == 0) { spb = (blockalign - 4 * ch) * 2 / ch + 1 ; bsz = blockalign ; }
 	else if (codec == 1) { spb = 2 + 2 * (blockalign - 7 * ch) / ch ; bsz = blockalign ; }
@@ -288,7 +288,7 @@ static void adpcm_case (int codec, int ch, int blockalign, int hdr, int stream)
 				if (hi > 88) in_domain = 0 ;
 				}
 		else if (codec == 1)
-		{	int bp = hdr % 8, d = deltas [(hdr / 8) % 4], sp = (hdr / 32 + b) % 4 ;	/* bpred 7 is outside the domain */
+		{	int bp = hdr % 8, d = deltas [(hdr / 8) % 8], sp = (hdr / 64 + b) % 4 ;	/* bpred 7 is outside the domain */
 			if (bp >= 7 || d < 0) in_domain = 0 ;
 			k0 = 0 ;
 			for (int c = 0 ; c < ch ; c++) blk [k0++] = bp ;
@@ -369,10 +369,10 @@ void run_c20 (void)
 		for (int codec = 0 ; codec < 3 ; codec++)
 			for (int ch = 1 ; ch <= 2 ; ch++)
 				for (int a = 0 ; a < (codec == 2 ? 1 : 4) ; a++)
-				{	int nh = codec == 1 ? 8 * 4 * 4 : 30 ;
+				{	int nh = codec == 1 ? 8 * 8 * 4 : 30 ;
 					for (int hdr = 0 ; hdr < nh ; hdr++)
 						for (int st = 0 ; st < NSTREAMS ; st++)
-						{	if (! vl_opts.thorough && codec == 1 && (hdr / 32) > 1 && st >= 23) continue ;
+						{	if (! vl_opts.thorough && codec == 1 && (hdr / 64) > 1 && st >= 23) continue ;
 							if (vl_case ("C20 adpcm codec=%d ch=%d blockalign=%d hdr=%d stream=%d", codec, ch, aligns [a], hdr, st))
 							{	vl_root_count (codec == 0 ? "adpcm-wav-ima" : codec == 1 ? "adpcm-wav-ms" : "adpcm-aifc-ima4") ;
 								adpcm_case (codec, ch, aligns [a], hdr, st) ;
